@@ -503,6 +503,17 @@ def monitors(ops: list[str], impl: list[str], res: CompResult) -> None:
                                                 f"{l.split(' q=')[1].split()[0]} (lost wake-up): it never runs them and never finishes", "lost-wakeup", ops, {"obs": l}))
             return
     last = obs_lines[-1]
+    # the shutdown signal was handed to the worker, yet its main thread sits waiting on an empty queue: the marker is gone, the
+    # worker never leaves its loop (and never runs the test it still holds as "next")
+    shut_given = any(o == "shutdown" or (o.startswith("pmain ") and o.split()[3] == "shutdown") for o in ops)
+    if shut_given and last.startswith("pc=wait") and " q=- " in last and "ERR=" not in last:
+        held = last.split(" next=")[1].split()[0]
+        for p in ("C07", "C05", "C02"):
+            res.violations.append(Violation(p, "worker.queue", "the worker was sent the shutdown signal but its main thread waits on an empty queue: the "
+                                            f"shutdown marker was lost from the queue (next={held}); the worker never finishes"
+                                            + ("" if held in ("None", "S") else f" and test {held} is never run"),
+                                            "shutdown-marker-lost", ops, {"last": last}))
+        return
     if "ERR=" in last:
         res.violations.append(Violation("C05", "worker.queue", "the worker loop raised", "worker-loop-exception", ops, {"last": last}))
         return
